@@ -332,7 +332,13 @@ func RunFaultCase(rt *rapid.T, env *Env, prop *SimProp, faults func(w *World) []
 	// then the worker is released: the op's work for the connection is accepted
 	// before the disposal runs and executed after it
 	for _, fault := range fs {
-		if prop.ID != "C11" || len(fault) != 1 || fault[0].K != "close" || len(cfg.Resources) == 0 {
+		if len(fault) != 1 || fault[0].O != "" || fault[0].S != "" || len(cfg.Resources) == 0 {
+			continue
+		}
+		// (C20: the same with Stop as the fault - every connection is disposed of,
+		// the one whose worker is parked is the one the op concerns, else the first)
+		isStop := prop.ID == "C20" && fault[0].K == "stop"
+		if !isStop && !(prop.ID == "C11" && fault[0].K == "close") {
 			continue
 		}
 		x := fault[0].C
@@ -342,7 +348,15 @@ func RunFaultCase(rt *rapid.T, env *Env, prop *SimProp, faults func(w *World) []
 			if b.K == "connect" {
 				conns++
 			}
-			if conns <= x {
+			if isStop {
+				x = 0
+				if b.K == "ans" && b.A != 0 {
+					x = actorDec(b.A)
+				} else if b.K == "token" {
+					x = b.C
+				}
+			}
+			if conns <= x || x < 0 {
 				continue
 			}
 			ok := false
@@ -372,6 +386,9 @@ func RunFaultCase(rt *rapid.T, env *Env, prop *SimProp, faults func(w *World) []
 			}
 			script = append(script, Op{K: "par", O: "held", Par: group})
 			script = append(script, base[k+1:]...)
+			if isStop {
+				script = faultVariant(script, len(script), nil, post)
+			}
 			vw, err := NewWorld(cfg)
 			if err != nil {
 				env.Inconclusive("NewWorld: " + err.Error())
@@ -381,6 +398,10 @@ func RunFaultCase(rt *rapid.T, env *Env, prop *SimProp, faults func(w *World) []
 			cj := openJournal(env, prop, p, cfg, vw)
 			vw.Settle()
 			for _, op := range script {
+				if op.K == "drain" {
+					answerAllOK(vw)
+					continue
+				}
 				vw.Exec(op)
 			}
 			cj()
